@@ -14,14 +14,23 @@ def cfgOf (profile : String) : Gen.Cfg :=
   | "forest" => { maxW := 4, maxH := 3, maxFrames := 1, maxLayers := 8, tilesets := false,
                   tags := false, slices := false, extFiles := false, userData := false,
                   oldPalette := false, blendModes := false }
+  | "indexedplain" => { depth := 8, oldPalette := false, zlib := false, padding := false,
+                        ignorable := false, tilesets := false, userData := false }
   | "tiles" => { maxLayers := 3, tags := false, slices := false, extFiles := false }
   | _ => {}
 
-def emitCase (out : IO.FS.Stream) (verbose : Bool) (m : Profile) (id : String) (bs : Bytes) : IO Unit := do
+def emitCase (out : IO.FS.Stream) (verbose : Bool) (m : Profile) (id : String) (bs : Bytes)
+    (outcomeOnly : Bool := false) : IO Unit := do
   out.putStrLn s!"CASE {id}"
   let r := parse Zlib.inflate m bs
-  for l in Obs.load verbose m r do
-    out.putStrLn l
+  if outcomeOnly then
+    out.putStrLn (match r with
+      | .ok _ => "load ok"
+      | .err e => s!"load err {Obs.errName e}"
+      | .panic _ => "load panic")
+  else
+    for l in Obs.load verbose m r do
+      out.putStrLn l
   out.putStrLn "END"
 
 partial def loop (h : IO.FS.Stream) (out : IO.FS.Stream) (m : Profile) : IO Unit := do
@@ -83,11 +92,88 @@ partial def loop (h : IO.FS.Stream) (out : IO.FS.Stream) (m : Profile) : IO Unit
         out.putStrLn s!"REFPIX {mode} {Obs.rgbaHex b} {Obs.rgbaHex s} {o.toNat} {Obs.rgbaHex r2}"
       out.flush
       loop h out m
+  | ["UTIL", id, "extrude", w, hh, hx] =>
+      out.putStrLn s!"CASE {id}"
+      match Obs.unhex hx with
+      | none => out.putStrLn "bad-hex"
+      | some bs =>
+          let img : Image := ⟨w.toNat!, hh.toNat!, (groupRgba bs).toArray⟩
+          match Util.extrudeBorder img with
+          | .ok o => out.putStrLn s!"extrude {Obs.image true o}"
+          | _ => out.putStrLn "util PANIC"
+      out.putStrLn "END"
+      out.flush
+      loop h out m
+  | ["UTIL", id, "mapper", file, failure, transp, order, queries] =>
+      -- `order`: fwd | rev — the hash map's iteration order is unspecified, the model takes it
+      out.putStrLn s!"CASE {id}"
+      match Obs.unhex file, Obs.unhex queries with
+      | some fb, some qb =>
+          match parse Zlib.inflate m fb with
+          | .ok sp =>
+              match sp.palette with
+              | some pal =>
+                  let opts : Util.MappingOptions :=
+                    ⟨UInt8.ofNat failure.toNat!, if transp == "-" then none else some (UInt8.ofNat transp.toNat!)⟩
+                  let ord := if order == "rev" then pal.entries.reverse else pal.entries
+                  let pm := Util.PaletteMapper.new ord opts
+                  let res := (groupRgba qb).map (fun c => toString (pm.lookup c.r c.g c.b c.a).toNat)
+                  out.putStrLn s!"mapper {String.intercalate "," res}"
+              | none => out.putStrLn "bad-request"
+          | _ => out.putStrLn "bad-request"
+      | _, _ => out.putStrLn "bad-hex"
+      out.putStrLn "END"
+      out.flush
+      loop h out m
+  | ["UTIL", id, "indexed", file, failure, transp, order, w, hh, hx] =>
+      out.putStrLn s!"CASE {id}"
+      match Obs.unhex file, Obs.unhex hx with
+      | some fb, some pb =>
+          match parse Zlib.inflate m fb with
+          | .ok sp =>
+              match sp.palette with
+              | some pal =>
+                  let opts : Util.MappingOptions :=
+                    ⟨UInt8.ofNat failure.toNat!, if transp == "-" then none else some (UInt8.ofNat transp.toNat!)⟩
+                  let ord := if order == "rev" then pal.entries.reverse else pal.entries
+                  let pm := Util.PaletteMapper.new ord opts
+                  let img : Image := ⟨w.toNat!, hh.toNat!, (groupRgba pb).toArray⟩
+                  let ((rw, rh), data) := Util.toIndexedImage img pm
+                  out.putStrLn s!"indexed {rw}x{rh} {Obs.hex data.toList}"
+              | none => out.putStrLn "bad-request"
+          | _ => out.putStrLn "bad-request"
+      | _, _ => out.putStrLn "bad-hex"
+      out.putStrLn "END"
+      out.flush
+      loop h out m
+  | ["SCHED", id, hx, events] =>
+      -- load through a scheduled reader (C14); `bufreader:<n>` / `file` are plain readers
+      out.putStrLn s!"CASE {id}"
+      match Obs.unhex hx with
+      | none => out.putStrLn "bad-hex"
+      | some bs =>
+          let evs : Option (List Ev) :=
+            if events == "-" || events.startsWith "bufreader:" || events == "file" then some []
+            else (events.splitOn ",").mapM (fun tok =>
+              if tok == "i" then some Ev.interrupted
+              else if tok.startsWith "d" then (tok.drop 1).toString.toNat?.map Ev.deliver
+              else if tok.startsWith "f" then (tok.drop 1).toString.toNat?.map (fun c =>
+                Ev.fail (if c == 0 then .unexpectedEof else .other c))
+              else none)
+          match evs with
+          | none => out.putStrLn "bad-events"
+          | some evs =>
+              let r := parseStream Zlib.inflate m ⟨bs, evs⟩
+              for l in Obs.load false m r do
+                out.putStrLn l
+      out.putStrLn "END"
+      out.flush
+      loop h out m
   | [cmd, id, hx] =>
-      if cmd == "LOAD" || cmd == "LOADV" then
+      if cmd == "LOAD" || cmd == "LOADV" || cmd == "LOADO" then
         match Obs.unhex hx with
         | none => do out.putStrLn s!"CASE {id}"; out.putStrLn "bad-hex"; out.putStrLn "END"
-        | some bs => emitCase out (cmd == "LOADV") m id bs
+        | some bs => emitCase out (cmd == "LOADV") m id bs (cmd == "LOADO")
         out.flush
       else
         out.putStrLn "bad-op"
